@@ -108,7 +108,12 @@ def build(ctx, kind, cfg, var=None):
                      dict(size=size, vals=dict(cks=cks, size=size, fl=flt, cond=cond)))
     if kind == "finished":
         nresp, fl = var.get("nresp", 0), var.get("fl")
-        cond = sym_cond(ctx, exclude=(0, 11) if fl else ())
+        omitted = bool(var.get("fl_omitted"))    # a fault location given together with a condition code for which none is packed
+        if omitted:
+            cond = ctx.int("cond", 0, 11)
+            ctx.assume(sym_or(cond == 0, cond == 11))
+        else:
+            cond = sym_cond(ctx, exclude=(0, 11) if fl else ())
         deliv, fstat = ctx.flag("delivery"), ctx.int("file_status", 0, 3)
         resps, rref, rinfo = [], [], []
         for i in range(nresp):
@@ -119,12 +124,12 @@ def build(ctx, kind, cfg, var=None):
         flt, flref, flraw = sym_entity_tlv(ctx, "fault_loc", fl) if fl else (None, [], None)
         params = FinishedParams(en(ctx, ConditionCode, cond), en(ctx, DeliveryCode, deliv), en(ctx, FileStatus, fstat), resps, flt)
         pdu = FinishedPdu(conf, params)
-        body = [5, (cond << 4) | (deliv << 2) | fstat] + rref + flref
+        body = [5, (cond << 4) | (deliv << 2) | fstat] + rref + ([] if omitted else flref)
 
         def check(u):
             conds = [u.condition_code == cond, u.delivery_code == deliv, u.file_status == fstat,
                      len(u.file_store_responses) == nresp,
-                     (u.fault_location is None) if flt is None else
+                     (u.fault_location is None) if (flt is None or omitted) else
                      (u.fault_location is not None and u.fault_location.value == flraw)]
             if len(u.file_store_responses) == nresp:
                 for r, info in zip(u.file_store_responses, rinfo):
